@@ -69,7 +69,7 @@ def _run_one(path, fname, tmo, ppt=None):
     # short is UNKNOWN for good, and 16 loaded cores make that common
     ppt = ppt or max(30.0, tmo / 3.0)
     cmd = [PY, '-m', 'vlib.xh_worker', path, fname, str(tmo)] + ([str(ppt)] if ppt else [])
-    env = dict(os.environ, PYTHONPATH=pythonpath(os.path.dirname(path)), PYTHONWARNINGS='ignore',
+    env = dict(os.environ, PYTHONPATH=pythonpath(os.path.dirname(path), os.path.join(ROOT, 'harness')), PYTHONWARNINGS='ignore',
                PYTHONHASHSEED='0')
     t0 = time.time()
     try:
@@ -101,7 +101,7 @@ REPLAY_TEMPLATE = '''\
 # (plain interpreter, no CrossHair) against /repo.  Exit 1 = violation reproduces.
 import sys, os, importlib.util
 sys.setrecursionlimit(5000)
-sys.path.insert(0, '/verif'); sys.path.insert(0, {hdir!r})
+sys.path.insert(0, '/verif/harness'); sys.path.insert(0, '/verif'); sys.path.insert(0, {hdir!r})
 os.environ.setdefault('PYTHONWARNINGS', 'ignore')
 import warnings; warnings.simplefilter('ignore')
 spec = importlib.util.spec_from_file_location({mod!r}, {path!r})
@@ -209,6 +209,11 @@ class Harness:
             return self.check.report_counterexample(
                 name, eng, b, src, cex['message'][:300], r['seconds'],
                 r['paths'], r['paths'], finding_id=fid)
+        if r['status'] in ('error', 'no_conditions'):
+            # the harness itself could not be loaded / analysed: loud, never a silent pass
+            tb = '; '.join(m.get('tb', '')[-300:] for m in r['messages'] if m.get('tb'))
+            return self.check.add(Obligation(
+                name, eng, b, 'harness_error', '%s: %s %s' % (r['status'], msg, tb), r['seconds'], r['paths']))
         return self.check.add(Obligation(
             name, eng, b, 'inconclusive', '%s: %s' % (r['status'], msg), r['seconds'], r['paths']))
 
